@@ -30,6 +30,7 @@ RULE = (
 )
 ASSUMPTIONS = [
     "grid G9; masses 1.51 (charm) and 4.92 (bottom); NfFF = 3 for both flavours (bottom is then not the first flavour above the light ones) and NfFF = 4 for bottom",
+    "projectiles: the canonical one per process for the main lattice; a sub-lattice with positron / antineutrino / charged-lepton CC / neutrino NC and a polarised positron beam (heavy-quark-initiated weights depend on the projectile)",
     "g1 only to O(a_s): LeProHQ raises an explicit ValueError for the high-virtuality limit of x2g1 at O(a_s^2)",
     "differences are discounted by 10x the reported quadrature errors (the massive intrinsic kernels lose accuracy at Q2/m2 >= 1e6: reported error 7e-6 at 1e6, NaN at 1e8, outside the ladder)",
     "consecutive-decade monotonicity is not required (NNLO differences change sign below r = 1e4); the ladder uses r = 1.1e4 instead of exactly 1e4 where LeProHQ switches representation",
@@ -97,9 +98,22 @@ def _states_evol(seed):
     return out
 
 
+def _states_proj(seed):
+    """non-canonical projectiles (anti-leptons, charged lepton CC, neutrino NC) and a polarised beam: the heavy-quark-initiated weights depend on them."""
+    out = []
+    for hq, nfff in (("charm", 3), ("bottom", 4)):
+        for k, p, projs in (("F2", "CC", ["electron", "positron", "antineutrino"]), ("F3", "CC", ["electron", "positron", "antineutrino"]), ("FL", "CC", ["antineutrino"]), ("F2", "NC", ["positron", "neutrino"]), ("F3", "NC", ["electron", "positron", "antineutrino"])):
+            for proj in projs:
+                for x in (1e-2, 0.3):
+                    out.append({"hq": hq, "nfff": nfff, "kind": k, "process": p, "obs": "h", "pto": 1, "x": x, "projectile": proj})
+    for k in ("F2", "F3"):
+        out.append({"hq": "charm", "nfff": 3, "kind": k, "process": "NC", "obs": "h", "pto": 1, "x": 0.1, "projectile": "positron", "obscard": {"PolarizationDIS": 0.7}})
+    return out
+
+
 def states(tier, seed):
     """quick = the full base lattice; thorough = base lattice + the deep extension."""
-    base = _states_base("thorough", seed) + _states_evol(seed)
+    base = _states_base("thorough", seed) + _states_evol(seed) + _states_proj(seed)
     if tier == "quick":
         return base
     seen = {digest(s) for s in base}
@@ -125,6 +139,9 @@ def execute(st):
     runs = {}
     for sch in ("FFNS", "FFN0"):
         c = {"scheme": f"{sch if sch == 'FFNS' else 'FFN0'}{st['nfff']}", "process": st["process"], "pto": st["pto"], "grid": "G9", "theory": {"RenScaleVar": False, "FactScaleVar": False}}
+        for kk in ("projectile", "obscard"):
+            if kk in st:
+                c[kk] = st[kk]
         if "pto_evol" in st:
             # evolution order above the DIS order: more asymptotic log towers are instantiated, the limit must be unchanged order by order
             c["pto"], c["ptodis"] = st["pto_evol"], st["pto"]
